@@ -11,6 +11,7 @@ import (
 // It only treates \n, \r, and \r\n as newlines, which might be different from some languages also recognizing \f, \u2028, and \u2029 to be newlines.
 func Position(r io.Reader, offset int) (line, col int, context string) {
 	l := NewInput(r)
+	defer l.Restore() // the terminator may have been written into the caller's array behind the data
 	line = 1
 	for l.Pos() < offset {
 		c := l.Peek(0)
